@@ -410,6 +410,67 @@ fn big_arena(n: u32, seed: u64) -> Result<(), String> {
     let re = Ontology::from_bytes(&bytes).map_err(|e| format!("from_bytes(as_bytes) of the big ontology: {e}"))?;
     check(&re, "reloaded")?;
     links(&re, "reloaded")?;
+    // comparison of ontologies of this size: nothing differs from the reloaded one; against a second
+    // big ontology (one late term renamed, one removed, one fresh term) exactly those differences
+    crate::ext_c18::oracle_compare(&o, &re).map_err(|e| format!("compare(big, reloaded): {e}"))?;
+    {
+        let cmp = o.compare(&re);
+        let n = cmp.added_hpo_terms().len() + cmp.removed_hpo_terms().len() + cmp.changed_hpo_terms().len()
+            + cmp.changed_genes().len() + cmp.changed_omim_diseases().len() + cmp.changed_orpha_diseases().len();
+        if n != 0 {
+            return Err(format!("compare(big, reloaded) reports {n} differences"));
+        }
+    }
+    {
+        let unlinked: Vec<u32> = order.iter().rev().skip(2100).take(3).copied().filter(|x| *x != 1 && *x != 118).collect();
+        if let [renamed, removed, ..] = unlinked[..] {
+            let fresh = (0u32..10_000_000).rev().find(|x| !ids.contains(x)).unwrap_or(0);
+            let mut b = Builder::new();
+            for id in order.iter().filter(|x| **x != removed) {
+                if *id == renamed {
+                    b.new_term("renamed late term", *id);
+                } else {
+                    b.new_term(&format!("t{id}"), *id);
+                }
+            }
+            b.new_term("fresh", fresh);
+            let mut b = b.terms_complete();
+            b.add_parent(1u32, 118u32).map_err(|_| "add_parent failed".to_string())?;
+            for (x, y) in &linked {
+                b.add_parent(118u32, *x).map_err(|_| "add_parent failed".to_string())?;
+                b.add_parent(*x, *y).map_err(|_| "add_parent failed".to_string())?;
+            }
+            let mut b = b.connect_all_terms();
+            for id in order.iter().filter(|x| **x != removed) {
+                let t = hpo::HpoTermId::from(*id);
+                b.annotate_gene(hpo::annotations::GeneId::from(7u32), "G7", t).map_err(|_| "annotate_gene failed".to_string())?;
+                b.annotate_omim_disease(hpo::annotations::OmimDiseaseId::from(7u32), "O7", t).map_err(|_| "annotate_omim failed".to_string())?;
+                b.annotate_orpha_disease(hpo::annotations::OrphaDiseaseId::from(7u32), "R7", t).map_err(|_| "annotate_orpha failed".to_string())?;
+            }
+            let o2 = b
+                .calculate_information_content()
+                .map_err(|_| "ic failed".to_string())?
+                .build_with_defaults()
+                .map_err(|_| "build failed".to_string())?;
+            crate::ext_c18::oracle_compare(&o, &o2).map_err(|e| format!("compare(big, big'): {e}"))?;
+            let cmp = o.compare(&o2);
+            let a: Vec<u32> = cmp.added_hpo_terms().iter().map(|t| t.id().as_u32()).collect();
+            let r: Vec<u32> = cmp.removed_hpo_terms().iter().map(|t| t.id().as_u32()).collect();
+            let c: Vec<u32> = cmp.changed_hpo_terms().iter().map(|t| t.id().as_u32()).collect();
+            if a != vec![fresh] || r != vec![removed] || c != vec![renamed] {
+                return Err(format!("compare(big, big'): added {a:?} removed {r:?} changed {c:?}, expected [{fresh}] [{removed}] [{renamed}]"));
+            }
+            for d in cmp.changed_genes() {
+                let rem: Vec<u32> = d.removed_terms().map(|v| v.iter().map(|t| t.as_u32()).collect()).unwrap_or_default();
+                if d.added_terms().is_some() || rem != vec![removed] || d.changed_name().is_some() {
+                    return Err(format!("compare(big, big'): gene delta removed {rem:?}"));
+                }
+            }
+            if cmp.changed_genes().len() != 1 || cmp.changed_omim_diseases().len() != 1 || cmp.changed_orpha_diseases().len() != 1 {
+                return Err("compare(big, big'): each of the three records lost exactly one term".to_string());
+            }
+        }
+    }
     let cl = o.clone();
     check(&cl, "clone")?;
     let r = std::panic::catch_unwind(std::panic::AssertUnwindSafe(|| cl.iter().count()));
